@@ -63,9 +63,40 @@ VERT = {
 }
 
 
-def build(s: dict) -> Mesh:
-    spec = [list(b) for b in s['bones']]
-    spec[s['renamed_bone'] % len(spec)][0] = s['bone_name']
+def model(s: dict) -> dict:
+    """Plain-data description of the mesh a setting denotes; every number already checked representable.
+       bones: [[name, parent index|None]]; frames: [[time, [[bone index, (x,y,z), (pitch,yaw,roll) degrees]]]];
+       tris: [[material, [[pos, norm, u, v, [[bone index, weight]]] x 3]]]"""
+    bones = [list(b) for b in s['bones']]
+    n = len(bones)
+    bones[s['renamed_bone'] % n][0] = s['bone_name']
+    if len({b[0] for b in bones}) != n:
+        raise HarnessError('duplicate bone names')
+    frames = []
+    for time, rows in s['frames']:
+        frames.append([time, [
+            [bi % n,
+             tuple(fnum(x) for x in POS[s['pos'] if k == 0 else pk]),
+             tuple(deg_of(t) for t in ROT[s['rot'] if k == 0 else rk])]
+            for k, (bi, pk, rk) in enumerate(rows)
+        ]])
+
+    def vert(key: str, links: list) -> list:
+        pos, norm, u, v = VERT[key]
+        return [tuple(fnum(x) for x in pos), tuple(fnum(x) for x in norm), fnum(u), fnum(v),
+                [[bi % n, fnum(w)] for bi, w in links]]
+
+    tris = []
+    for t in range(s['n_tris']):
+        if t == 0:
+            tris.append([s['mat'], [vert(s['vert'], s['links0']), vert('v1', [[0, 1.0]]), vert('v2', s['links2'])]])
+        else:
+            tris.append([f'filler/mat_{t}', [vert('v2', [[t, 1.0]]), vert('v0', [[0, 1.0]]), vert('v1', [[n - 1, 1.0]])]])
+    return {'bones': bones, 'frames': frames, 'tris': tris}
+
+
+def construct(mdl: dict) -> Mesh:
+    spec = mdl['bones']
     objs: list = [None] * len(spec)
 
     def make(i: int) -> Bone:
@@ -75,34 +106,25 @@ def build(s: dict) -> Mesh:
         return objs[i]
     for i in range(len(spec)):
         make(i)
-    if len({b.name for b in objs}) != len(objs):
-        raise HarnessError('duplicate bone names')
-    n = len(objs)
-    bones = {b.name: b for b in objs}
+    anim = {time: [BoneFrame(objs[bi], Vec(*pos), Angle(*rot)) for bi, pos, rot in rows] for time, rows in mdl['frames']}
+    tris = [Triangle(mat, *[Vertex(Vec(*pos), Vec(*norm), u, v, [(objs[bi], w) for bi, w in links])
+                            for pos, norm, u, v, links in verts])
+            for mat, verts in mdl['tris']]
+    return Mesh({b.name: b for b in objs}, anim, tris)
 
-    anim: dict = {}
-    for time, rows in s['frames']:
-        anim[time] = [
-            BoneFrame(objs[bi % n],
-                      Vec(*[fnum(x) for x in POS[s['pos'] if k == 0 else pk]]),
-                      Angle(*[deg_of(t) for t in ROT[s['rot'] if k == 0 else rk]]))
-            for k, (bi, pk, rk) in enumerate(rows)
-        ]
 
-    def vert(key: str, links: list) -> Vertex:
-        pos, norm, u, v = VERT[key]
-        return Vertex(Vec(*[fnum(x) for x in pos]), Vec(*[fnum(x) for x in norm]), fnum(u), fnum(v),
-                      [(objs[bi % n], fnum(w)) for bi, w in links])
+def expected(mdl: dict) -> dict:
+    """What observe() must yield, computed from the plain data (names instead of bone indices)."""
+    spec = mdl['bones']
 
-    tris = []
-    for t in range(s['n_tris']):
-        if t == 0:
-            tris.append(Triangle(s['mat'], vert(s['vert'], s['links0']), vert('v1', [[0, 1.0]]),
-                                 vert('v2', s['links2'])))
-        else:
-            tris.append(Triangle(f'filler/mat_{t}', vert('v2', [[t, 1.0]]), vert('v0', [[0, 1.0]]),
-                                 vert('v1', [[n - 1, 1.0]])))
-    return Mesh(bones, anim, tris)
+    def nm(i: int) -> str:
+        return spec[i][0]
+    return {
+        'bones': sorted((name, (name, None if par is None else nm(par))) for name, par in spec),
+        'animation': sorted((time, [(nm(bi), tuple(pos), tuple(rot)) for bi, pos, rot in rows]) for time, rows in mdl['frames']),
+        'triangles': [(mat, [(tuple(pos), tuple(norm), u, v, [(nm(bi), w) for bi, w in links])
+                             for pos, norm, u, v, links in verts]) for mat, verts in mdl['tris']],
+    }
 
 
 # ---------------------------------------------------------------------------------------------
@@ -140,8 +162,15 @@ def observe(mesh: Mesh) -> dict:
     }
 
 
-def roundtrip(mesh: Mesh, res: Result, what: str) -> None:
-    want = observe(mesh)
+def roundtrip(mesh: Mesh, res: Result, what: str, want: Any = None) -> None:
+    if want is None:
+        want = observe(mesh)
+    elif observe(mesh) != want:
+        held = observe(mesh)
+        diffs = [f'{k}: given {want[k]!r}\n   holds {held[k]!r}' for k in want if want[k] != held[k]]
+        res.fail('smd_value_mismatch', f'{what}: the constructed Mesh does not hold the given value: '
+                 + '\n '.join(diffs)[:1100])
+        return
     buf = io.BytesIO()
     try:
         mesh.export(buf)
@@ -243,8 +272,8 @@ def inert(dev: dict) -> bool:
 
 def evaluate(setting: dict) -> Result:
     res = Result()
-    mesh = build(setting)       # HarnessError propagates: a generator bug must stop the run, not count as a case
-    roundtrip(mesh, res, 'generated value')
+    mdl = model(setting)        # HarnessError propagates: a generator bug must stop the run, not count as a case
+    roundtrip(construct(mdl), res, 'generated value', expected(mdl))
     return res
 
 
@@ -279,6 +308,8 @@ def run(ctx: core.Ctx) -> None:
         f'export(parse_smd(export(x))) byte-identical. No SMD sample file exists under tests/. Non-trivial = reader '
         f'returned a value that was compared.')
     ctx.rule = RULE
+    ctx.assumptions.append('C20/smd: runs under PYTHONHASHSEED=0 only; where the writer iterates a set of bones the outcome for a '
+                           'given bone table depends on the names\' string hashes')
 
 
 def replay(case: dict) -> list:
